@@ -23,5 +23,5 @@ Prefer a change that breaks only this property and leaves unrelated behaviour in
 Deliverables in /tmp/seed-out/{pid}/ :
   - patch.diff : `git -C /tmp/seed/{pid} diff` of your source change ONLY (no new test files in it);
   - demo.rs (or demo_<name>.rs): a NEW integration test file (note in NOTES.md where it must be placed, e.g. contracts/<crate>/tests/demo_break.rs) containing a test that FAILS with your change applied and PASSES on the original code; it must demonstrate the property violation through the public contract API (clients, events, queries);
-  - NOTES.md : what the change is, why the existing tests miss it, what exactly is needed to make it manifest, and the exact commands you ran with their outcome (suite passing with the change; demo failing with the change; demo passing without the change - use `git stash` or a reverse patch to check this).
+  - NOTES.md : what the change is, why the existing tests miss it, what exactly is needed to make it manifest, and the exact commands you ran with their outcome (suite passing with the change; demo failing with the change; demo passing without the change - use a reverse patch (`git apply -R patch.diff`, then `git apply patch.diff`) to check this; do NOT use `git stash`: the stash is shared between worktrees and other people are working in sibling worktrees).
 Verify all three outcomes yourself before finishing. When finished, delete the build output to save disk: `rm -rf /tmp/seed/{pid}/target`, but leave your source change and demo file in place in the worktree. Final answer: a 5-line summary of the change and what you verified.""")
